@@ -4733,7 +4733,8 @@ func (n *FlowSpecNLRI) Serialize(options ...*MarshallingOption) ([]byte, error) 
 	length := n.Len(options...)
 	if length > 0xfff {
 		return nil, fmt.Errorf("too large: %d", length)
-	} else if length < 0xf0 {
+	} else if length <= 0xf0 {
+		// Len() counts the length octet itself: up to 239 octets of components
 		length -= 1
 		buf = append([]byte{byte(length)}, buf...)
 	} else {
